@@ -83,6 +83,9 @@ type Case struct {
 	Steps      []Step  `json:"steps"`
 	Full       bool    `json:"full"`        // finish with a plain `mockery` run + go vet
 	FullByFlag bool    `json:"full_byflag"` // pass --config to that run even when the search would find the file
+	// Decoy: "yaml" / "yml" = a valid .mockery.yaml / .mockery.yml in the PARENT directory of the module root
+	// (monorepo layout) that configures other names; a nearer file written by init must win the search.
+	Decoy string `json:"decoy,omitempty"`
 }
 
 // ---- generators -------------------------------------------------------------------------------
@@ -295,6 +298,9 @@ func gen(t *rapid.T) Case {
 		c.Target = tParent
 	default:
 		c.Target = tNormal
+		if c.Full && uniform(t, 2, "fulldefault") == 0 {
+			c.Target = ".mockery.yml"
+		}
 	}
 	valid, raw := pick(t, "valid", validConfigs), rapid.Bool().Draw(t, "rawbytes")
 	rawBytes, garbage := rapid.SliceOfN(rapid.Byte(), 1, 120).Draw(t, "bytes"), pick(t, "garbage", garbageTexts)
@@ -319,6 +325,15 @@ func gen(t *rapid.T) Case {
 		c.Steps = append(c.Steps, s)
 	}
 	c.FullByFlag = rapid.Bool().Draw(t, "fullbyflag") && c.Full
+	c.Decoy = pick(t, "decoy", []string{"", "", "", "yaml", "yml"})
+	if strings.HasPrefix(c.Target, "../") && !strings.Contains(strings.TrimPrefix(c.Target, "../"), "/") {
+		// the target itself lives in that parent directory: a second config next to it legitimately
+		// shadows it (or is it) - outside the property
+		c.Decoy = ""
+	}
+	if c.Decoy != "" {
+		c.FullByFlag = false
+	}
 	return c
 }
 
@@ -697,6 +712,12 @@ func classify(c Case) (string, []string) {
 	if c.Full {
 		cl = append(cl, "full-run")
 	}
+	if c.Decoy != "" {
+		cl = append(cl, "decoy-in-parent=."+c.Decoy)
+		if c.Full {
+			cl = append(cl, "full-run+decoy=."+c.Decoy+"+target="+c.Target)
+		}
+	}
 	if nt {
 		return vh.Hash(vh.JSON(c)), cl
 	}
@@ -751,6 +772,16 @@ func run(c Case) *vh.Violation {
 		if err := os.MkdirAll(filepath.Join(w.mod, d), 0o755); err != nil {
 			vh.Infra("mkdir: %v", err)
 		}
+	}
+
+	// a decoy configuration in the parent directory of the module (never next to the target)
+	decoy := c.Decoy
+	if decoy != "" && filepath.Dir(w.target) == root {
+		vh.DontCare("second-config-next-to-target")
+		decoy = ""
+	}
+	if decoy != "" {
+		vh.WriteFiles(root, map[string]string{".mockery." + decoy: decoyConfig(c.Mod)})
 	}
 
 	// initial state of the target
@@ -884,6 +915,13 @@ func run(c Case) *vh.Violation {
 		return w.fullRun(*creator)
 	}
 	return nil
+}
+
+// decoyConfig is valid and would generate Decoy<Name> mocks into decoy_mocks_test.go for the last
+// package of the module, so that it is visible which file a plain run used.
+func decoyConfig(m ModSpec) string {
+	return "all: true\nstructname: 'Decoy{{.InterfaceName}}'\nfilename: decoy_mocks_test.go\npackages:\n  " +
+		m.importPath(len(m.Pkgs)-1) + ":\n    config:\n      all: true\n"
 }
 
 func indent(s string) string {
@@ -1105,6 +1143,14 @@ func (w *world) fullRun(s Step) *vh.Violation {
 		if !ast.IsExported(missing[0]) {
 			exported = "unexported"
 		}
+		if c.Decoy != "" && bySearch && !c.FullByFlag {
+			for name := range found {
+				if strings.HasPrefix(name, "Decoy") {
+					return w.fail("run/by-search/decoy-in-parent=.mockery."+c.Decoy+"/target="+c.Target+"/ancestor-config-used",
+						"init wrote %s in the working directory, but the plain run used the .mockery.%s of the parent directory: it generated %v and no mock for %v of %s", c.Target, c.Decoy, newGo, missing, s.Pkg)
+				}
+			}
+		}
 		return w.fail("run/"+feature+"/missing-mock/"+exported, "no mock type generated for interface(s) %v of %s (new Go files: %v)", missing, s.Pkg, newGo)
 	}
 	// compile oracle
@@ -1182,6 +1228,7 @@ func reduce(c Case) []Case {
 	}
 	add(func(d *Case) bool { ok := d.Full; d.Full, d.FullByFlag = false, false; return ok })
 	add(func(d *Case) bool { ok := d.FullByFlag; d.FullByFlag = false; return ok })
+	add(func(d *Case) bool { ok := d.Decoy != ""; d.Decoy = ""; return ok })
 	for i := range c.Steps {
 		i := i
 		if len(c.Steps) > 1 {
